@@ -439,6 +439,92 @@ func DefaultExternals() map[string]externalFn {
 			return int64(0)
 		},
 		"(*time.Location).get": func(fr *frame, args []value) value { return args[0] },
+		"time.NewTimer":        func(fr *frame, args []value) value { return fr.i.newTimer(fr.fn, "Timer") },
+		"time.NewTicker":       func(fr *frame, args []value) value { return fr.i.newTimer(fr.fn, "Ticker") },
+		"time.AfterFunc":       func(fr *frame, args []value) value { return fr.i.newTimer(fr.fn, "Timer") },
+		"time.After": func(fr *frame, args []value) value {
+			fr.i.nextChanID++
+			return &channel{cap: 1, id: fr.i.nextChanID}
+		},
+		"time.Tick": func(fr *frame, args []value) value {
+			fr.i.nextChanID++
+			return &channel{cap: 1, id: fr.i.nextChanID}
+		},
+		"(*time.Timer).Stop":   func(fr *frame, args []value) value { return fr.i.timerArm(args[0], false) },
+		"(*time.Timer).Reset":  func(fr *frame, args []value) value { return fr.i.timerArm(args[0], true) },
+		"(*time.Ticker).Stop":  func(fr *frame, args []value) value { fr.i.timerArm(args[0], false); return nil },
+		"(*time.Ticker).Reset": func(fr *frame, args []value) value { fr.i.timerArm(args[0], true); return nil },
+
+		// --- sync.Map (deterministic model)
+		"(*sync.Map).Load": func(fr *frame, args []value) value {
+			v, ok := fr.i.syncMap(args[0]).lookup(args[1])
+			if !ok {
+				return tuple{iface{}, false}
+			}
+			return tuple{v, true}
+		},
+		"(*sync.Map).Store": func(fr *frame, args []value) value {
+			fr.i.syncMap(args[0]).insert(args[1], args[2])
+			return nil
+		},
+		"(*sync.Map).LoadOrStore": func(fr *frame, args []value) value {
+			m := fr.i.syncMap(args[0])
+			if v, ok := m.lookup(args[1]); ok {
+				return tuple{v, true}
+			}
+			m.insert(args[1], args[2])
+			return tuple{args[2], false}
+		},
+		"(*sync.Map).LoadAndDelete": func(fr *frame, args []value) value {
+			m := fr.i.syncMap(args[0])
+			if v, ok := m.lookup(args[1]); ok {
+				m.delete(args[1])
+				return tuple{v, true}
+			}
+			return tuple{iface{}, false}
+		},
+		"(*sync.Map).Delete": func(fr *frame, args []value) value {
+			fr.i.syncMap(args[0]).delete(args[1])
+			return nil
+		},
+		"(*sync.Map).Range": func(fr *frame, args []value) value {
+			m := fr.i.syncMap(args[0])
+			it := &mapIter{m: m}
+			for {
+				t := it.next()
+				if t[0] != true {
+					break
+				}
+				r := call(fr.i, fr, token.NoPos, args[1], []value{t[1], t[2]})
+				if r == false {
+					break
+				}
+			}
+			return nil
+		},
+		"(*sync.WaitGroup).Add": func(fr *frame, args []value) value {
+			p := args[0].(*value)
+			fr.i.wg[p] += int(concreteInt(args[1], "WaitGroup.Add"))
+			if fr.i.wg[p] < 0 {
+				panic(targetPanic{"sync: negative WaitGroup counter"})
+			}
+			return nil
+		},
+		"(*sync.WaitGroup).Done": func(fr *frame, args []value) value {
+			p := args[0].(*value)
+			fr.i.wg[p]--
+			if fr.i.wg[p] < 0 {
+				panic(targetPanic{"sync: negative WaitGroup counter"})
+			}
+			return nil
+		},
+		"(*sync.WaitGroup).Wait": func(fr *frame, args []value) value {
+			p := args[0].(*value)
+			if fr.i.wg[p] > 0 {
+				panic(pathAbort{"blocked", "sync.WaitGroup.Wait with non-zero counter"})
+			}
+			return nil
+		},
 	}
 	addAtomics(m)
 	return m
@@ -764,4 +850,40 @@ func (fr *frame) asciiCase(s value, upper bool) value {
 		out[k] = i.mkInt(tb.Ite(in, tb.Bin(OpBvAdd, ct, tb.Const(delta, 8)), ct), types.Uint8)
 	}
 	return mkString(out)
+}
+
+// newTimer builds a *time.Timer / *time.Ticker whose channel never fires by itself.
+func (i *interpreter) newTimer(fn *ssa.Function, typ string) value {
+	t := fn.Pkg.Type(typ).Type()
+	st := zero(t).(structure)
+	i.nextChanID++
+	st[0] = &channel{cap: 1, id: i.nextChanID}
+	var cell value = st
+	p := &cell
+	i.timers[p] = true
+	return p
+}
+
+// timerArm models Stop/Reset: returns whether the timer was armed before.
+func (i *interpreter) timerArm(t value, arm bool) value {
+	p, _ := t.(*value)
+	if p == nil {
+		panic(nilDeref())
+	}
+	was := i.timers[p]
+	i.timers[p] = arm
+	return was
+}
+
+func (i *interpreter) syncMap(m value) *omap {
+	p, _ := m.(*value)
+	if p == nil {
+		panic(nilDeref())
+	}
+	om := i.syncMaps[p]
+	if om == nil {
+		om = makeMap(nil)
+		i.syncMaps[p] = om
+	}
+	return om
 }
